@@ -82,13 +82,21 @@ def mod(path):
     return importlib.import_module(path)
 
 
-def lens_for(tier, c=16, big=True):
-    """the length grid: thorough = DESIGN's full grid; quick = 0..80 plus block/cache boundaries"""
+def lens_for(tier, c=16, big=True, reduced=False):
+    """the length grid.  thorough: DESIGN's full grid (every 0..260, 511..513, 4095..4097, 8191..8193, 65536).
+    quick: every 0..80 plus +-1 around block/cache multiples, 511..513 and (big) the large ones;
+    quick+reduced (secondary class configurations that share their native code with a primary one):
+    every 0..2c+1 plus +-1 around 4c, 8c and 256"""
     if tier == "thorough":
         out = list(range(0, 261)) + list(MID)
         if big:
             out += list(BIG)
         return out
+    if reduced:
+        out = set(range(0, min(2 * c + 2, 140)))
+        for m in (4 * c, 8 * c, 256):
+            out.update((m - 1, m, m + 1))
+        return sorted(out)
     out = set(range(0, 81))
     for m in (c, 2 * c, 3 * c, 4 * c, 8 * c, 64, 128, 136, 144, 168, 256):
         out.update((m - 1, m, m + 1))
@@ -205,22 +213,41 @@ class Blk(object):
         return [("blk", t) for t in blk_targets(tier)]
 
     @staticmethod
+    def primary(t):
+        cname, klen, mode, extra = t
+        if cname == "AES" and klen == 16:
+            return not extra or extra == (("segment_size", 8),) or extra == (("segment_size", 128),) or \
+                (extra == (("use_aesni", False),) and mode in ("ECB", "CBC", "CTR"))
+        return cname == "DES3" and klen == 24
+
+    @staticmethod
     def gen(shard, tier):
         t = shard[1]
         cname, klen, mode, extra = t
         bs = BLOCK[cname]
-        primary = (cname in ("AES", "DES3") and klen == KEYLEN[cname]) or tier == "thorough"
-        lens = lens_for(tier, bs, big=primary)
+        th = tier == "thorough"
+        primary = th or Blk.primary(t)
+        lens = lens_for(tier, bs, big=primary, reduced=not primary)
         streamy = mode in ("CFB", "OFB", "CTR", "OPENPGP")
         pres = (0, 1, bs - 1) if streamy else (0, bs)
         if mode == "OPENPGP":
             pres = (0, 1)
-        als = ("r",) if mode == "OPENPGP" else ("r", "o", "p", "i", "v", "w")
+        if not primary:
+            pres = pres[:1] + pres[-1:]
+        full_als = ("r", "o", "p", "i", "v", "w")
         out = []
         for op in ("encrypt", "decrypt"):
             for pre in pres:
+                if mode == "OPENPGP":
+                    als = ("r",)
+                elif th:
+                    als = full_als
+                elif primary:
+                    als = full_als if pre == 0 else ("o", "i")
+                else:
+                    als = ("r", "o", "i", "w") if pre == 0 else ("o", "i")
                 for L in lens:
-                    if L > 8193 and (pre or not primary):
+                    if L > 8193 and pre:
                         continue
                     for pl in "ES":
                         for al in als:
@@ -285,11 +312,18 @@ class Stream(object):
     @staticmethod
     def gen(shard, tier):
         t = shard[1]
-        lens = lens_for(tier, 64, big=True)
-        als = ("r",) if t[0] == "ARC4" else ("r", "o", "p", "i", "v", "w")
+        th = tier == "thorough"
+        primary = th or t in (("ARC4", 16, 0), ("Salsa20", 32, 8), ("ChaCha20", 32, 12), ("ChaCha20", 32, 24))
+        lens = lens_for(tier, 64, big=primary, reduced=not primary)
         out = []
         for op in ("encrypt", "decrypt"):
-            for pre in (0, 1, 63):
+            for pre in ((0, 1, 63) if primary else (0, 63)):
+                if t[0] == "ARC4":
+                    als = ("r",)
+                elif th or (primary and pre == 0):
+                    als = ("r", "o", "p", "i", "v", "w")
+                else:
+                    als = ("o", "i") if pre else ("r", "o", "i", "w")
                 for L in lens:
                     if L > 8193 and pre:
                         continue
@@ -393,15 +427,22 @@ class Aead(object):
         return out
 
     @staticmethod
+    def primary(t):
+        return t in (("AES", 16, "GCM", ()), ("AES", 16, "CCM", ()), ("AES", 16, "EAX", ()), ("AES", 32, "SIV", ()),
+                     ("AES", 16, "OCB", ()), ("ChaCha20_Poly1305", 32, "CHAPOLY", (("nonce_len", 12),)))
+
+    @staticmethod
     def gen(shard, tier):
         _, t, part = shard
         cname, klen, mode, extra = t
-        primary = not extra or tier == "thorough"
-        bs = 16 if mode in ("CHAPOLY",) else BLOCK.get(cname, 16)
-        lens = lens_for(tier, 16, big=primary)
+        th = tier == "thorough"
+        primary = th or Aead.primary(t)
+        lens = lens_for(tier, 16, big=primary, reduced=not primary)
+        small = lens_for(tier, 16, big=False, reduced=not th)
+        full_als = ("r", "o", "p", "i", "v", "w")
         out = []
         if part == "aad":
-            for pre in (None, 0, 1, 15):
+            for pre in ((None, 0, 1, 15) if primary else (None, 15)):
                 for A in lens:
                     if A > 8193 and pre:
                         continue
@@ -413,8 +454,13 @@ class Aead(object):
                     for pl in "ES":
                         out.append(("aead", t, "aad2", a1, a2, pl))
         elif part in ("enc", "dec") and mode != "SIV":
-            als = ("r", "o", "p", "i", "v", "w") if HAS_OUT[mode] else ("r",)
-            for pre in (0, 1, 15, 16):
+            for pre in ((0, 1, 15, 16) if th else (0, 15)):
+                if not HAS_OUT[mode]:
+                    als = ("r",)
+                elif th or (primary and pre == 0):
+                    als = full_als
+                else:
+                    als = ("o", "i") if pre else ("r", "o", "i", "w")
                 for L in lens:
                     if L > 8193 and pre:
                         continue
@@ -429,15 +475,30 @@ class Aead(object):
                         for al in "bs":
                             out.append(("aead", t, part, 0, L, pl, al))
         elif part == "combo":
-            als = ("r", "o", "p", "i", "v", "w", "b", "s") if HAS_OUT_COMBO[mode] else ("r",)
-            for good in (1, 0):
-                for L in lens:
+            if not HAS_OUT_COMBO[mode]:
+                als = ("r",)
+            elif primary:
+                als = full_als
+            else:
+                als = ("r", "o", "i", "w")
+            for L in lens:
+                for pl in "ES":
+                    for al in als:
+                        if L > 8193 and al in "pvw":
+                            continue
+                        out.append(("aead", t, "combo", "ed", L, pl, al))
+                        out.append(("aead", t, "combo", "dv", L, pl, al))
+            for L in small:
+                for pl in "ES":
+                    for al in (("r", "o") if HAS_OUT_COMBO[mode] else ("r",)):
+                        out.append(("aead", t, "combo", "ed5", L, pl, al))
+                        out.append(("aead", t, "combo", "dvbad", L, pl, al))
+            if HAS_OUT_COMBO[mode]:
+                for L in (0, 1, 16, 17):
                     for pl in "ES":
-                        for al in als:
-                            if (L > 8193 or not good) and al in "pvwbs":
-                                continue
-                            out.append(("aead", t, "combo", "ed" if good else "ed5", L, pl, al))
-                            out.append(("aead", t, "combo", "dv" if good else "dvbad", L, pl, al))
+                        for al in "bs":
+                            out.append(("aead", t, "combo", "ed", L, pl, al))
+                            out.append(("aead", t, "combo", "dv", L, pl, al))
         elif part == "tag":
             for tl in range(0, 34):
                 for good in (1, 0):
@@ -556,8 +617,8 @@ class Aead(object):
                     if al in "bs" and L:
                         return "wrong-size-output-accepted"
             except ValueError as e:
-                if what == "dvbad" and "MAC" in str(e):
-                    return "ok-rejected"
+                if "MAC" in str(e) and (what == "dvbad" or al in "vw"):
+                    return "ok-rejected"           # (overlapping buffers: the data fed to the MAC is undefined)
                 raise
             if what == "dvbad":
                 return "bad-tag-accepted"
